@@ -122,25 +122,52 @@ def r2(ctx):
 @rule('C11', 'R-C11-3', 'T13 PAIR (remove / full)',
       'remove(s) and full(s) filter the characters of s itself with !is_whitespace and join with "" resp. " "')
 def r3(ctx):
+    from analysis.seq import seq_of, seq_of_iter, ITEM
+    from analysis.sym import const_str, defs_of
+    SRC = Call('CharString::chars', Call('CharString::new', ('arg', 1, ANY), ('arg', 2, ANY)))
+    notws = lambda conds: len(conds) == 1 and conds[0][1] is False and match(core(conds[0][0]), Call(WS, ITEM))
+    isel = lambda e: core(e) == ITEM or core(e) == ('field', ITEM, 'str')
     for fn, sep in (('whitespace::remove', ''), ('whitespace::full', ' ')):
         b = ctx.body(fn)
         rv = ret_values(b)
-        ok = len(rv) == 1
-        e = {}
-        ok = ok and match(rv[0][0], Call('Itertools::join', Call('Iterator::filter', Call('CharString::chars', Call('CharString::new', ('arg', 1, ANY), ('arg', 2, ANY))), Cap('clo')), Cap('sep')), e)
-        why = 'is %s' % (show_in(b, rv[0][0]) if rv else '?')
-        if ok:
-            sp = e['sep']
-            from analysis.sym import const_str
-            ok = const_str(sp) == sep
-            why = 'separator is %s' % show_in(b, sp)
-        if ok:
-            clo = closure_of(ctx, e['clo'])
-            crv = ret_values(clo)
-            ok = len(crv) == 1 and match(crv[0][0], ('un', 'Not', Call(WS, ANY)))
-            why = 'filter predicate is %s' % (show_in(clo, crv[0][0]) if crv else '?')
-        ctx.require(ok, b, 'shape|' + fn.rsplit('::', 1)[-1], '%s = CS::new(s).chars().filter(!is_whitespace).join("%s")' % (fn, sep),
-                    '%s %s (the characters of the input itself must be filtered and joined)' % (fn, why))
+        if len(rv) != 1:
+            raise AnchorMissing('single result of %s' % fn)
+        t = peel(rv[0][0])
+        ok, why = False, 'is %s' % show_in(b, rv[0][0])[:160]
+        if t[0] == 'call' and t[1].endswith('Itertools::join') and len(t[2]) == 2:
+            segs = seq_of_iter(ctx.facts, b, t[2][0])
+            ok = segs is not None and len(segs) == 1 and segs[0].kind == 'each' and match(core(segs[0].src), SRC) and notws(segs[0].conds) and isel(segs[0].elem)
+            why = 'joins %s' % [repr(x)[:120] for x in segs or ()]
+            if ok:
+                ok = const_str(t[2][1]) == sep
+                why = 'separator is %s' % show_in(b, t[2][1])
+        else:
+            segs = seq_of(ctx.facts, b, rv[0][0])
+            if segs is None or len(segs) != 1 or not match(core(segs[0].src or ()), SRC):
+                raise AnchorMissing('%s: neither a filter/join chain nor a single loop over CS::new(s, use_graphemes).chars()' % fn)
+            sg = segs[0]
+            why = 'builds %r' % sg
+            if sg.kind == 'each':
+                ok = sep == '' and notws(sg.conds) and isel(sg.elem)
+            elif sg.kind == 'nest' and notws(sg.conds):
+                # separator idiom: `if !is_first { out.push(sep) }; is_first = false; out.push_str(c.str)`
+                inner = sg.inner
+                seps = [x for x in inner if x.kind == 'one' and core(x.elem)[0] == 'const']
+                els = [x for x in inner if x.kind == 'one' and isel(x.elem) and not x.conds]
+                ok = len(inner) == 2 and len(seps) == 1 and len(els) == 1 and inner.index(seps[0]) < inner.index(els[0]) and sep != ''
+                if ok:
+                    cv = core(seps[0].elem)
+                    ok = (cv[2] == ord(sep) if len(cv) > 2 and isinstance(cv[2], int) else const_str(seps[0].elem) == sep)
+                    cd = seps[0].conds
+                    ok = ok and len(cd) == 1 and cd[0][1] is False and core(cd[0][0])[0] == 'var'
+                    if ok:
+                        fl = core(cd[0][0])[2]
+                        whole, partial = defs_of(b, fl)
+                        vals = sorted(str(getattr(d_, 'rv', None) and core(sym(b, d_.rv.ops[0]))[1:3]) for d_ in whole if hasattr(d_, 'rv') and d_.rv.ops)
+                        ok = len(whole) == 2 and not partial and any('true' in v_ for v_ in vals) and any('false' in v_ for v_ in vals) and \
+                            all(cfg.dominates(b, els[0].term.bb, d_.bb) or cfg.dominates(b, d_.bb, els[0].term.bb) for d_ in whole)
+        ctx.require(ok, b, 'shape|' + fn.rsplit('::', 1)[-1], '%s = the non-whitespace characters of CS::new(s) joined with "%s"' % (fn, sep),
+                    '%s %s (the characters of the input itself must be filtered with !is_whitespace and joined with "%s")' % (fn, why, sep))
 
 
 @rule('C11', 'R-C11-4', 'T13 PAIR (word_boundaries)',
